@@ -3,7 +3,7 @@
     [convs] of the field types, any user callables, allow_unknown_fields on or off), for EVERY
     item list: any length, order, repetition, literals, unknown names.  [slot_spec], [spec_flat]
     (Run/LoopProofs.v) are comprehensions over the input - no pass, no state. *)
-From DarlingModel Require Import Run.Recv Run.RecvProofs Run.LoopProofs Run.LevelProofs.
+From DarlingModel Require Import Run.Recv Run.RecvProofs Run.LoopProofs Run.LevelProofs Spec.C01 Run.SpecSound Run.SpecComplete.
 Local Open Scope list_scope.
 
 (** The declarations put every single-valued field in the "not seen" state and every
@@ -65,8 +65,61 @@ Theorem C01_field_values :
                   /\ init_field interp_fn cd (final_slot sugg sim interp_with interp_fn fields convs items j f) (f, t) = Ok v.
 Proof. exact parse_fields_ok_values. Qed.
 
+(** THE PROPERTY, for the model: for every receiver type (structs, newtypes, unit structs, enums,
+    wrappers, nested to any depth; any library targets, oracles and user callables) satisfying what
+    derive-time validation and Rust guarantee ([wf_spec]: distinct field names, flatten not
+    combined with skip / multiple, at most one flatten member) and EVERY meta item: whenever the
+    per-field specification of Spec/C01.v - comprehensions over the input, no pass, no state, no
+    error values - gives the input a value, the generated parser returns exactly that value. *)
+Theorem C01_parser_computes_the_declared_mapping :
+  forall pf reparse reparse_arr reparse_preds sugg sim interp_with interp_fn t,
+    wf_spec t ->
+    forall m v, is_meta m = true ->
+      expected pf reparse reparse_arr reparse_preds interp_with interp_fn t m = Some v ->
+      from_meta (impl_of pf reparse reparse_arr reparse_preds sugg sim interp_with interp_fn t) m = Ok v.
+Proof. exact expected_sound. Qed.
+
+(** ... and conversely (for declarations without [darling::Result] fields, which turn inner errors
+    into values, whose skipped fields have a default - derive time supplies one - and whose
+    flatten members are struct receivers: [cwf]): the parser succeeds ONLY on inputs the
+    specification gives a value, with that value.  Together: exactly the declared mapping. *)
+Theorem C01_parser_is_exactly_the_declared_mapping :
+  forall pf reparse reparse_arr reparse_preds sugg sim interp_with interp_fn t,
+    wf_spec t -> cwf t ->
+    forall m v, is_meta m = true ->
+      (from_meta (impl_of pf reparse reparse_arr reparse_preds sugg sim interp_with interp_fn t) m = Ok v
+       <-> expected pf reparse reparse_arr reparse_preds interp_with interp_fn t m = Some v).
+Proof. exact parser_is_the_declared_mapping. Qed.
+
+(** The executable test of [wf_spec] that the check evaluates on every receiver it runs is sound. *)
+Theorem C01_executable_well_formedness_is_sound : forall t, wf_specb t = true -> wf_spec t.
+Proof. exact wf_specb_sound. Qed.
+
+(** Non-vacuity: a two-field receiver with a rename-all'd name, a default and a repeated
+    [multiple] field; the specification gives the input a value. *)
+Local Open Scope string_scope.
+Local Open Scope list_scope.
+Example C01_declared_mapping_nonvacuous :
+  let mk := mkInfo (0, 0, 0, 0)%N "" in
+  let pth n := mkPath mk false [(n, "")] in
+  let u8 := TLeaf (TInt (mkIty false 8 false)) in
+  let r := TStructR (mkCI "R" None None false None None)
+             [(mkFI "max_len" "max-len" None None None false false false, u8);
+              (mkFI "tags" "tags" None None None false true false, TLeaf TString);
+              (mkFI "level" "level" (Some DxTrait) None None false false false, u8)] in
+  let input := NList mk (pth "x") mk
+                 [NNameValue mk (pth "tags") (ELit mk (LStr "a")); NNameValue mk (pth "max-len") (ELit mk (LInt "7" ""));
+                  NNameValue mk (pth "tags") (ELit mk (LStr "b"))] in
+  wf_specb r = true
+  /\ expected (fun _ _ => None) (fun _ _ => None) (fun _ => None) (fun _ => None) (fun _ _ => Ok VUnit) (fun _ _ => Ok VUnit) r input
+     = Some (VStruct [("max_len", VInt 7); ("tags", VList [VStr "a"; VStr "b"]); ("level", VInt 0)]).
+Proof. cbv zeta. split; vm_compute; reflexivity. Qed.
+
 Print Assumptions C01_initial_state.
 Print Assumptions C01_field_values.
 Print Assumptions C01_loop_is_field_comprehension.
 Print Assumptions C01_field_depends_only_on_own_occurrences.
 Print Assumptions C01_order_irrelevant_across_fields.
+Print Assumptions C01_parser_computes_the_declared_mapping.
+Print Assumptions C01_parser_is_exactly_the_declared_mapping.
+Print Assumptions C01_executable_well_formedness_is_sound.
